@@ -16,11 +16,14 @@ pub struct Piece {
 }
 
 pub const NAMES: &[&str] = &[
-    "A", "B", "Foo", "Foo2", "FooBar", "Foo_", "Bar", "a", "_x", "Zed", "Zed9", "Ünï", "Page", "Page2", "Pa", "$d", "Z",
+    "A", "B", "Foo", "Foo2", "FooBar", "Foo_", "Bar", "a", "_x", "Zed", "Zed9", "Ünï", "Page", "Page2", "Pa", "$d", "Z", "Wide", "WideToo",
 ];
 pub const GENERICS: &[&str] = &["", "", "", "<T>", "<T, U>", "<T = number>"];
-pub const MODS: &[&str] = &["./x", "./y", "../z/w", "./sub/deep", "./Foo", "../../up", "./a.b"];
-pub const IMPORT_NAMES: &[&str] = &["X", "Y", "Dep", "DepA", "DepB", "Foo3", "Q", "from", "type"];
+pub const MODS: &[&str] = &["./x", "./y", "../z/w", "./sub/deep", "./Foo", "../../up", "./a.b", "./my from dir/x", "../a;b/Dep", "./with space/y"];
+pub const IMPORT_NAMES: &[&str] = &[
+    "X", "Y", "Dep", "DepA", "DepB", "Foo3", "Q", "from", "type", "Dependency01", "Dependency02", "Dependency03", "Dependency04", "Dependency05",
+    "Dependency06", "Dependency07", "Dependency08", "Dependency09", "Dependency10", "Dependency11", "Dependency12",
+];
 pub const DOC_LINES: &[&str] = &[
     " plain words",
     " export type Z = number;",
@@ -62,7 +65,17 @@ pub const BODY_BLANK_LINE: &str = "{ \n/** first\n\n second */\na: number, }";
 pub fn render(p: &Piece, note: &str) -> String {
     let mut s = String::from(note);
     for (m, names) in &p.imports {
-        s.push_str(&format!("import type {{ {} }} from \"{}\";\n", names.join(", "), m));
+        // (a piece named `Wide..` writes its imports the way a formatter wraps long statements:
+        // one name per line)
+        if p.name.starts_with("Wide") && names.len() >= 2 {
+            s.push_str("import type {\n");
+            for n in names {
+                s.push_str(&format!("  {n},\n"));
+            }
+            s.push_str(&format!("}} from \"{m}\";\n"));
+        } else {
+            s.push_str(&format!("import type {{ {} }} from \"{}\";\n", names.join(", "), m));
+        }
     }
     s.push('\n');
     if let Some(doc) = &p.doc {
@@ -108,11 +121,50 @@ pub fn permutations(n: usize) -> Vec<Vec<usize>> {
 pub fn apply_merge(note: &str, file: &str, new: &str) -> Result<String, String> {
     let (f, n) = (file.to_string(), new.to_string());
     let merged = catch_unwind(move || ts_rs::verif_hooks::merge(f, n)).map_err(|_| "merge panicked".to_string())?;
-    let mut out = format!("{note}{merged}");
-    if out.len() < file.len() {
-        out.push_str(&file[out.len()..]);
+    // (the file is cut to the new length; `check_set_files` drives the real writing code)
+    let _ = file;
+    Ok(format!("{note}{merged}"))
+}
+
+/// The same orders through the code that really writes the file (`export_and_merge`, reached
+/// through the hook): first write, merges, and a repeated export of the first type at the end.
+pub fn check_set_files(note: &str, texts: &[String], names: &[String], orders: &[Vec<usize>], dir: &std::path::Path) -> Option<Value> {
+    let parts: Vec<combine::Standalone> = texts.iter().filter_map(|t| combine::parse_standalone(t, note).ok()).collect();
+    if parts.len() != texts.len() {
+        return None;
     }
-    Ok(out)
+    let path = dir.join("shared.ts");
+    for order in orders {
+        std::fs::remove_file(&path).ok();
+        ts_rs::verif_hooks::reset_registry();
+        let steps: Vec<usize> = order.iter().copied().chain([order[0]]).collect();
+        for (k, i) in steps.iter().enumerate() {
+            let (p, name, text) = (path.clone(), names[*i].clone(), texts[*i].clone());
+            let res = catch_unwind(move || ts_rs::verif_hooks::export_and_merge(p, name, text));
+            let done = (k + 1).min(order.len());
+            let subset: Vec<combine::Standalone> = order[..done].iter().map(|j| parts[*j].clone()).collect();
+            let expected = if subset.len() == 1 { texts[order[0]].clone() } else { combine::combine(note, &subset) };
+            let observed = std::fs::read_to_string(&path).unwrap_or_default();
+            let problem = match res {
+                Err(_) => Some("export_and_merge panicked".to_string()),
+                Ok(Err(e)) => Some(format!("export_and_merge returned {e}")),
+                Ok(Ok(())) if observed != expected => Some("the file differs from the reference combiner".to_string()),
+                _ => None,
+            };
+            if let Some(what) = problem {
+                ts_rs::verif_hooks::reset_registry();
+                return Some(json!({
+                    "signature": "file-written-differs-from-reference",
+                    "message": format!("writing {:?} in this order through export_and_merge (step {k}): {what}", &steps[..=k]),
+                    "case": {"kind": "c05files", "texts": texts, "names": names, "order": order},
+                    "expected": expected, "observed": observed,
+                }));
+            }
+        }
+    }
+    std::fs::remove_file(&path).ok();
+    ts_rs::verif_hooks::reset_registry();
+    None
 }
 
 pub fn signature(texts: &[String]) -> &'static str {
@@ -148,7 +200,8 @@ pub fn check_set(note: &str, texts: &[String], orders: &[Vec<usize>]) -> Option<
         let mut file = texts[order[0]].clone();
         for k in 1..=order.len() {
             let subset: Vec<combine::Standalone> = order[..k].iter().map(|i| parts[*i].clone()).collect();
-            let expected = combine::combine(note, &subset);
+            // (a file holding one type is that type's standalone text, whatever its layout)
+            let expected = if subset.len() == 1 { texts[order[0]].clone() } else { combine::combine(note, &subset) };
             if file != expected {
                 return Some(json!({
                     "signature": signature(texts),
